@@ -13,7 +13,7 @@ import re
 import re._parser as sre_parse
 import re._constants as C
 import z3
-from .engine import SymInt, SymBool, E, _zi
+from .engine import SymInt, SymBool, E, _zi, HarnessError
 
 
 class SymChar:
@@ -348,7 +348,9 @@ def parse_template(repl):
 def fresh_char(e, name, ranges=((32, 126),), src=None):
     """a symbolic character with code point in the union of `ranges`"""
     v = e.fresh_int(name, min(lo for lo, _ in ranges), max(hi for _, hi in ranges))
+    if not isinstance(v, SymInt):                         # concrete replay
+        if not any(lo <= v <= hi for lo, hi in ranges): raise HarnessError(f'replay value {v} for {name} outside its character ranges')
+        return chr(v)
     if len(ranges) > 1:
         e.assume(SymBool(z3.Or([z3.And(v.z >= lo, v.z <= hi) for lo, hi in ranges])))
-    if not isinstance(v, SymInt): return chr(v)           # concrete replay
     return SymChar(v.z, src)
